@@ -38,7 +38,11 @@ pub fn run(cfg: &Cfg, rep: &mut Report) -> bool {
         "C07" => c07::run(cfg, rep),
         "C08" => c08::run(cfg, rep),
         "C09" => c09::run(cfg, rep),
-        "C10" => c10::run(cfg, rep),
+        "C10" => {
+            c10::run(cfg, rep);
+            // framing of the answers of the library's own commands (status machine)
+            status::run(cfg, rep, status::Focus::C10)
+        }
         "C11" => c11::run(cfg, rep),
         "C12" => c12::run(cfg, rep),
         "C13" => status::run(cfg, rep, status::Focus::C13),
